@@ -2,7 +2,7 @@
 
 package main
 
-// bigdump (part of the concurrent batch): a log in the production
+// bigdump (a batch of its own, plain build): a log in the production
 // configuration holding about ten thousand lines is dumped in a loop by two
 // goroutines (what the client's status dump does) while a third logs 100
 // fresh lines. The log stays far below its limit and nothing expires, so every
